@@ -61,8 +61,14 @@ func TestProgramsAreValidGo(t *testing.T) {
 	nf := len(Faults)
 	for pi, pl := range Placements {
 		for fi, f := range Faults {
+			if !ProgFaultOK(f) {
+				continue
+			}
 			g := Faults[(fi*7+pi+3)%nf]
 			h := Faults[(fi*13+pi+5)%nf]
+			for !ProgFaultOK(g) || !ProgFaultOK(h) {
+				g, h = Faults[0], Faults[1]
+			}
 			p := pl.Build(f, g, h)
 			if strings.Contains(p.Src, "@") && strings.Contains(p.Src, "@F") {
 				t.Fatalf("unreplaced hole in %s/%s", pl.Name, f.Name)
